@@ -5,7 +5,7 @@ as the Lean model SeqApi.acceptExplicit says (whose validation position is regen
 ASan+UBSan build with exact-size sequence arrays."""
 import build, zv, frames, datagen
 
-ASSUMPTIONS = ["a registered external sequence producer is not driven yet (fallback switch untested)",
+ASSUMPTIONS = ["a registered sequence producer is driven without a formatted dictionary and never together with long-distance matching or workers (both refused by the library)",
                "the delimiter-free transcriber is compared only through round trip + conformance, not against a block-by-block model"]
 
 
@@ -129,6 +129,576 @@ def dict_parse_case(rng):
     return bytes(x), p, seqs, d
 
 
+# ------------------------------------------------------------------------------------------------------------------------------------------
+# block-level sequence producer (ZSTD_registerSequenceProducer): a producer that replays a valid parse for some blocks and fails on others
+
+def seqprod_harness(variant="san"):
+    return build.link("zvh_seqprod", ["zvh_seqprod.c"], variant)
+
+
+def seqprod_model(lines, timeout=1800):
+    rc, out, err = zv.run([zv.driver_exe(), "seqprod"], "\n".join(lines) + "\n", timeout=timeout)
+    if rc != 0:
+        raise RuntimeError("lean driver seqprod failed: " + err[-500:])
+    o = out.split("\n")
+    return o[:-1] if o and o[-1] == "" else o
+
+
+def lit_bytes(rng, n, alpha):
+    """n literal bytes over a skewed alphabet (Huffman-compressible, so that the block is emitted compressed)"""
+    k = len(alpha)
+    return bytes(alpha[min(int(rng.expovariate(3.0 / k)), k - 1)] for _ in range(n))
+
+
+def copy_from(x, dist, n):
+    """append n bytes copied from `dist` bytes back (overlap allowed)"""
+    for _ in range(n):
+        x.append(x[-dist])
+
+
+def exec_parse(seqs, src):
+    """execute (offset, ll, ml) entries over the literals of `src`; returns None if they regenerate src, else the first bad position"""
+    out = bytearray(); n = len(src)
+    for s in seqs:
+        off, ll, ml = s[0], s[1], s[2]
+        if len(out) + ll > n:
+            return len(out)
+        out += src[len(out):len(out) + ll]
+        if ml:
+            if off == 0 or off > len(out) or len(out) + ml > n:
+                return len(out)
+            st = len(out)
+            if off >= ml:
+                out += out[st - off:st - off + ml]
+            else:
+                for _ in range(ml):
+                    out.append(out[-off])
+            if out[st:] != src[st:st + ml]:
+                k = st
+                while out[k] == src[k]:
+                    k += 1
+                return k
+    return None if len(out) == n else len(out)
+
+
+def hist_after(on, h, seqs):
+    """the decoder's repeat-offset history after a block transcribed with repcode search on / off (used to choose baits, not as an oracle)"""
+    h = list(h)
+    for off, ll, ml in seqs:
+        ll0 = int(ll == 0)
+        if not on: code = off + 3
+        elif not ll0 and off == h[0]: code = 1
+        elif off == h[1]: code = 2 - ll0
+        elif off == h[2]: code = 3 - ll0
+        elif ll0 and off == h[0] - 1: code = 3
+        else: code = off + 3
+        if code > 3:
+            h = [code - 3, h[0], h[1]]
+        else:
+            rc = code - 1 + ll0
+            if rc > 0:
+                cur = h[0] - 1 if rc == 3 else h[rc]
+                h = [cur, h[0], h[1] if rc >= 2 else h[2]]
+    return tuple(h)
+
+
+def replay_block(rng, x, size, k, alpha, within_block, hist=None, avoid=None, first_ll_min=0):
+    """append a block of `size` bytes to x made by executing a fresh parse of k sequences; returns (sequences, last literals).
+    Offsets reach at most to the start of the data (or of the block when `within_block`: validation restarts in every block).
+    `avoid` (a set): offsets are pairwise distinct, >= 9, and neither in `avoid` nor one below a member."""
+    start = len(x)
+    last = rng.choice([0, 0, 1, 5, 40, size // 9])
+    lls = [rng.choice([0, 0, 1, 2, 3, 9, 30, max(1, size // (5 * k))]) for _ in range(k)]
+    need0 = max(first_ll_min, rng.choice([1, 2, 8, 33]) if (start == 0 or within_block) else 0)
+    lls[0] = max(lls[0], need0)
+    for _ in range(64):
+        if sum(lls) + last + 8 * k <= size:
+            break
+        lls = [l // 2 for l in lls]; last //= 2
+        lls[0] = max(lls[0], min(need0, max(1, size // 8)) if need0 else 0)
+    assert sum(lls) + last + 3 * k <= size, (size, k, lls, last)
+    mt = size - sum(lls) - last
+    extra = mt - 3 * k
+    cuts = sorted(rng.randint(0, extra) for _ in range(k - 1))
+    mls = [b - a_ + 3 for a_, b in zip([0] + cuts, cuts + [extra])]
+    seqs = []
+    used = set(avoid) if avoid is not None else None
+    for i in range(k):
+        x += lit_bytes(rng, lls[i], alpha)
+        pos = len(x)
+        lim = pos - start if within_block else pos
+        if used is not None:
+            off = None
+            for _ in range(200):
+                o = rng.randint(min(9, lim), min(lim, 1500))
+                if o not in used and o + 1 not in used and o - 1 not in used:
+                    off = o; break
+            if off is None:
+                off = lim
+            used.add(off)
+        else:
+            pool = [1, 2, 3, rng.randint(1, min(lim, 16)), rng.randint(1, lim), rng.randint(1, lim), rng.randint(max(1, lim // 2), lim)]
+            if seqs: pool += [seqs[-1][0], seqs[0][0]]
+            if hist: pool += list(hist) + [hist[0] - 1]
+            off = rng.choice([o for o in pool if 1 <= o <= lim])
+        copy_from(x, off, mls[i])
+        seqs.append((off, lls[i], mls[i]))
+    x += lit_bytes(rng, last, alpha)
+    assert len(x) - start == size, (len(x) - start, size, lls, mls, last)
+    return seqs, last
+
+
+def filler(rng, x, n):
+    """compressible data for the internal parser: a noisy chunk repeated with small mutations"""
+    if n <= 0:
+        return
+    unit = bytearray(rng.getrandbits(8) for _ in range(rng.choice([32, 64, 100])))
+    end = len(x) + n
+    while len(x) < end:
+        u = bytearray(unit)
+        for _ in range(rng.choice([0, 1, 2])):
+            u[rng.randrange(len(u))] = rng.getrandbits(8)
+        x += u[:end - len(x)]
+
+
+def bait_block(rng, x, size, dists, gap0, gaps):
+    """a block meant for the internal parser after a producer failure: `gap0` fresh literals, then for every distance in `dists` a copy of
+    24..60 bytes from that far back (the only way the parser can find these is through its repeat-offset history: the blocks the producer
+    answered were never indexed), `gaps[i]` fresh literals in between; then compressible filler"""
+    start = len(x)
+    x += bytes(rng.getrandbits(8) for _ in range(gap0))
+    for i, d in enumerate(dists):
+        if d < 1 or d > len(x):
+            continue
+        copy_from(x, d, rng.randint(24, 60))
+        x += bytes(rng.getrandbits(8) for _ in range(gaps[i] if i < len(gaps) else 0))
+    filler(rng, x, size - (len(x) - start))
+    assert len(x) - start == size
+
+
+def entry_str(seqs, last, drop_empty_delim=False):
+    e = ["%d:%d:%d" % s for s in seqs]
+    if not (drop_empty_delim and last == 0 and seqs):
+        e.append("0:%d:0" % last)
+    return ",".join(e)
+
+
+def producer_cases(ctx, quick):
+    """list of dict(x, p, plan(list of entries), api, dict, blocks(list of sizes), how)"""
+    rng = ctx.rng
+    cases = []
+
+    def base_params(level, search, mbs, fallback, validate=0, extra=None):
+        p = {100: level, 101: 17, 160: 0, 1014: fallback, 1015: mbs, 1016: search, 201: 1}
+        if validate: p[1009] = 1
+        if extra: p.update(extra)
+        return p
+
+    # (A) directed: a block of exactly k producer sequences (k = 1..5), optionally preceded by another producer block, then a block on which
+    #     the producer FAILS and that baits the internal parser with copies at every distance that is, was, or could wrongly be in the history
+    lowlevels = [1, 3, 5, 7, 2, 4, 6, 9]
+    for k in (1, 2, 3, 4, 5):
+        for search in (2, 0, 1):
+            for pre in (0, 1):
+                mbs = rng.choice([1024, 2048, 4096])
+                alpha = [rng.randrange(256) for _ in range(rng.choice([12, 24, 48]))]
+                x = bytearray(); plan = []; old = (1, 4, 8)
+                on = search == 1
+                if pre:
+                    sq0, l0 = replay_block(rng, x, mbs, rng.choice([2, 3, 4, 6]), alpha, False)
+                    plan.append(entry_str(sq0, l0)); old = hist_after(on, old, sq0)
+                # distinct offsets, all different from the old history, so that a stale entry cannot be right by accident
+                sqN, lN = replay_block(rng, x, mbs, k, alpha, False, avoid=set(old), first_ll_min=0 if pre else 48)
+                plan.append(entry_str(sqN, lN, drop_empty_delim=rng.random() < 0.5))
+                true_hist = hist_after(on, old, sqN)
+                cand = []
+                for c in list(true_hist) + list(old) + [q[0] for q in sqN]:
+                    if c not in cand and 1 <= c <= len(x):
+                        cand.append(c)
+                prefix = bytes(x)
+                for ci, c in enumerate(cand):
+                    for shape in ("one", "two", "opt"):
+                        if quick and shape == "opt" and search == 0:
+                            continue         # auto below level 10 is the same switch position as disable
+                        y = bytearray(prefix)
+                        if shape == "two":
+                            bait_block(rng, y, mbs, [true_hist[0], c], rng.choice([1, 2, 3, 5]), [0, 0])
+                        else:
+                            bait_block(rng, y, mbs, [c], rng.choice([1, 2, 3, 5]), [0])
+                        if shape == "opt":
+                            lvl = rng.choice([1, 3]); extra = {107: rng.choice([7, 8, 9])}
+                        else:
+                            lvl = lowlevels[(ci + k) % len(lowlevels)]; extra = None
+                        p = base_params(lvl, search, mbs, 1, 0, extra)
+                        cases.append(dict(x=bytes(y), p=p, plan=plan + ["F"], api="c2", d=None, blocks=[mbs] * (len(plan) + 1),
+                                          how="producer block of %d sequences, then a failing block handed to the internal parser (bait '%s' at distance %d)" % (k, shape, c)))
+    # (B) random histories: every block replayed / failing in one of the ways / invalid, fallback on and off, validation on and off, all three
+    #     repcode-search settings, block sizes 1 KiB .. 128 KiB, one-shot and streaming, optional raw-content dictionary
+    for i in range(140 if quick else 3000):
+        big = i % 23 == 0
+        mbs = rng.choice([65536, 130048]) if big else rng.choice([1024, 1024, 2048, 4096, 8192])     # (full 128 KiB blocks are cut further by the library, data-dependently)
+        nblocks = rng.choice([2, 3]) if big else rng.choice([2, 3, 4, 5, 7])
+        validate = int(rng.random() < 0.3)
+        fallback = int(rng.random() < 0.65)
+        search = rng.choice([0, 1, 2])
+        level = rng.choice([1, 3, 3, 6, 10, 12, 16, 19]) if not big else rng.choice([1, 3, 10])
+        alpha = [rng.randrange(256) for _ in range(rng.choice([8, 24, 64]))]
+        d = datagen.randbytes(rng, rng.choice([300, 2000])) if rng.random() < 0.12 else None
+        x = bytearray(); plan = []; blocks = []
+        hist = (1, 4, 8)
+        on = search == 1 or (search == 0 and level >= 10)
+        bad_at = rng.randrange(nblocks) if rng.random() < 0.25 else None
+        for b in range(nblocks):
+            size = mbs if b + 1 < nblocks else rng.choice([mbs, rng.randint(40, mbs), rng.randint(40, 300)])
+            blocks.append(size)
+            r = rng.random()
+            if b == bad_at:
+                k = rng.randint(1, 5)
+                sq, last = replay_block(rng, x, size, k, alpha, bool(validate), hist=hist)
+                kind = rng.choice(["long", "short", "middelim", "full", "voff", "vml"]) if validate else rng.choice(["long", "short", "middelim", "full"])
+                if kind == "long": last += rng.choice([1, 7, size])
+                elif kind == "short":
+                    if last: last -= 1
+                    else: sq[-1] = (sq[-1][0], sq[-1][1], sq[-1][2] - 1) if sq[-1][2] > 3 else (sq[-1][0], sq[-1][1] + 1, sq[-1][2])
+                elif kind == "middelim":
+                    j = rng.randrange(len(sq)); sq = sq[:j] + [(0, 0, 0)] + sq[j:]
+                elif kind == "voff":
+                    j = rng.randrange(len(sq)); o, l, m = sq[j]; sq[j] = (sum(a + c for _, a, c in sq[:j]) + l + (len(d) if d else 0) + rng.choice([1, 2, 50]), l, m)
+                elif kind == "vml":
+                    j = rng.randrange(len(sq)); o, l, m = sq[j]; sq[j] = (o, l + m - 2, 2)
+                plan.append("X" if kind == "full" else entry_str(sq, last))
+                continue
+            if r < 0.55:
+                k = rng.choice([1, 2, 3, 3, 4, 5]) if rng.random() < 0.8 else rng.choice([0, 6, 9, 20])
+                if k == 0:
+                    x += lit_bytes(rng, size, alpha); plan.append("0:%d:0" % size)
+                    continue
+                sq, last = replay_block(rng, x, size, min(k, max(1, size // 24)), alpha, bool(validate), hist=hist)
+                hist = hist_after(on, hist, sq)
+                plan.append(entry_str(sq, last, drop_empty_delim=rng.random() < 0.5))
+            else:
+                # the producer fails on this block (in one of three ways): bait for the internal parser if it gets the block
+                dists = [rng.choice(list(hist) + [hist[0]]), rng.choice(list(hist) + [1, 4, 8])]
+                if rng.random() < 0.5: dists = dists[:1]
+                bait_block(rng, x, size, dists, rng.choice([0, 1, 2, 3]), [rng.choice([0, 0, 1, 3]), 0]) if size >= 200 else filler(rng, x, size)
+                plan.append(rng.choice(["F", "F", "C", "Z"]))
+        p = base_params(level, search, mbs, fallback, validate)
+        if big: p[101] = 20
+        if rng.random() < 0.2: p[1010] = rng.choice([1, 2])          # block splitter on / off
+        if rng.random() < 0.3: p.pop(201)
+        api = "c2" if rng.random() < 0.7 else "s%d" % rng.choice([1, 7, 100, 1000, mbs, mbs + 1, 5 * mbs])
+        cases.append(dict(x=bytes(x), p=p, plan=plan, api=api, d=d, blocks=blocks, how="random producer history (%s)" % api))
+    return cases
+
+
+def run_producer_family(ctx, cases):
+    """run the cases (sanitizer build), decode (library + independent decoder), compare verdicts / transcription / histories with SeqApi.producerBlock"""
+    exe = seqprod_harness("san"); plain = frames.harness("plain")
+    ev = 0
+    lines = ["prod %s %s %s %s%s" % (frames.pstr(c["p"]), frames.hx(c["x"]), ";".join(c["plan"]), c["api"], (" " + frames.hx(c["d"])) if c["d"] else "") for c in cases]
+    chunks = frames.split_chunks(lines, 16)
+    oc = frames.parallel(lambda ch: [frames.run_lines(exe, ch, timeout=1800)], chunks)
+    res = []
+    for (rc, out, err), ch in zip(oc, chunks):
+        res += out + ["crash calls=-"] * (len(ch) - len(out))
+        if rc != 0:
+            bad = ch[min(len(out), len(ch) - 1)]
+            ctx.violation("sanitizer build aborted while compressing with a registered sequence producer: %s" % err[-600:], dict(kind="monitor", harness="zvh_seqprod", op=bad[:400000], stderr=err[-3000:]))
+    # model verdict per block, in block order
+    mlines, mref = [], []
+    parsed = []
+    for ci, (c, r) in enumerate(zip(cases, res)):
+        head, _, calls = r.rpartition(" calls=")
+        cl = [] if calls in ("-", "") else [t.split(":") for t in calls.split(";")]
+        parsed.append((head, cl))
+    # decode the frames first: the decoder's history per block is the reference the model is evaluated on
+    ok_idx = [i for i, (h, _) in enumerate(parsed) if not h.startswith("err") and not h.startswith("crash")]
+    dl = ["dec %d %s%s" % (len(cases[i]["x"]), parsed[i][0], (" " + frames.hx(cases[i]["d"])) if cases[i]["d"] else "") for i in ok_idx]
+    wl = ["xxh " + frames.hx(cases[i]["x"]) for i in ok_idx]
+    cl_ = ["conform %s %s %s %d 0" % (parsed[i][0], frames.hx(cases[i]["x"]), frames.hx(cases[i]["d"]) if cases[i]["d"] else "-", cases[i]["p"].get(1015, 0)) for i in ok_idx]
+    bl = ["blockreps %d %s%s" % (len(cases[i]["x"]), parsed[i][0], (" " + frames.hx(cases[i]["d"])) if cases[i]["d"] else "") for i in ok_idx]
+    cd = frames.parallel(lambda ch: frames.run_lines(plain, ch)[1], frames.split_chunks(dl, 16)) if dl else []
+    ww = frames.parallel(lambda ch: frames.run_lines(plain, ch)[1], frames.split_chunks(wl, 16)) if wl else []
+    cf = frames.parallel(lambda ch: frames.model_lines(ch), frames.split_chunks(cl_, 16)) if cl_ else []
+    br = frames.parallel(lambda ch: seqprod_model(ch), frames.split_chunks(bl, 16)) if bl else []
+    dec = {}
+    for i, a, w, b, r_ in zip(ok_idx, cd, ww, cf, br):
+        dec[i] = (a, w, b, r_)
+    # per block: decoder history before the block (when known), then the model line
+    for ci, c in enumerate(cases):
+        head, cl = parsed[ci]
+        hist_before = None
+        if ci in dec and dec[ci][3].startswith("ok "):
+            cells = [t.split(",") for t in dec[ci][3][3:].split(";")]
+            pos = 0; hist_at = {0: "1.4.8"}; groups = {}
+            start = 0; bi = 0; acc = []
+            bounds = []; s0 = 0
+            for sz in c["blocks"]:
+                bounds.append((s0, s0 + sz)); s0 += sz
+            for ty, regen, rp, sq in cells:
+                pos += int(regen); hist_at[pos] = rp
+                acc.append((ty, int(regen), rp, sq))
+                if bi < len(bounds) and pos >= bounds[bi][1]:
+                    groups[bi] = acc; acc = []; bi += 1
+            hist_before = (hist_at, groups, bounds)
+        c["_dec"] = hist_before
+        s0 = 0; k = 0
+        for bi, sz in enumerate(c["blocks"]):
+            if sz < 7:
+                s0 += sz; continue          # below MIN_CBLOCK_SIZE + header + 2 the block is stored without asking anybody
+            e = c["plan"][k] if k < len(c["plan"]) else "F"
+            cap = cl[k][1] if k < len(cl) else str(sz // 3 + 1 + sz // 1024 + 1)
+            rep = "1.4.8"
+            if hist_before and s0 in hist_before[0]:
+                rep = hist_before[0][s0]
+            ret, sq = ("E", "-") if e == "F" else ("E", "-") if e == "C" else ("0", "-") if e == "Z" else ("X", "-") if e == "X" else (str(len(e.split(","))), e)
+            wsz = 1 << c["p"].get(101, 17)
+            mlines.append("prodblock %d %d %d %d %d %d %s %d %s %s %s" % (c["p"].get(1016, 0), c["p"][100], c["p"].get(1014, 0), c["p"].get(1009, 0), wsz, len(c["d"]) if c["d"] else 0, rep, sz, cap, ret, sq))
+            mref.append((ci, bi, k, s0))
+            s0 += sz; k += 1
+    mo = frames.parallel(lambda ch: seqprod_model(ch), frames.split_chunks(mlines, 16)) if mlines else []
+    per = {}
+    for (ci, bi, k, s0), o in zip(mref, mo):
+        per.setdefault(ci, []).append((bi, k, s0, o))
+    stats = dict(ok=0, failed=0, invalid=0, fallback_blocks=0, stored_blocks=0, offbase_ties=0, history_ties=0, history_obs=0)
+    mism = []
+    for ci, c in enumerate(cases):
+        if len(ctx.violations) >= 8:
+            break
+        head, cl = parsed[ci]
+        if head.startswith("crash"):
+            continue
+        ev += 1
+        outs = per.get(ci, [])
+        expect = "ok"; ncalls = 0
+        for bi, k, s0, o in outs:
+            ncalls += 1
+            if o == "failed": expect = "err sequenceProducer_failed"; break
+            if o == "invalid": expect = "err externalSequences_invalid"; break
+        rep = dict(kind="monitor", harness="zvh_seqprod", op=lines[ci][:400000], impl=head[:200], calls=";".join(":".join(t) for t in cl), model=[o for _, _, _, o in outs][:40], how=c["how"])
+        got = head if head.startswith("err") else "ok"
+        if got != expect:
+            if expect == "ok":
+                ctx.violation("compression with a registered sequence producer failed (%s) although every block was either a valid parse or a producer failure with fallback enabled (%s; params %s)" % (head, c["how"], frames.pstr(c["p"])), rep)
+            elif got == "ok":
+                ctx.violation("compression with a registered sequence producer succeeded although the model says %s (producer failure with fallback disabled, or an answer whose lengths disagree with the block) (%s; params %s)" % (expect, c["how"], frames.pstr(c["p"])), rep)
+            else:
+                ctx.violation("registered sequence producer: the call failed with %s, the model says %s (%s; params %s)" % (head, expect, c["how"], frames.pstr(c["p"])), rep)
+            continue
+        stats["ok" if expect == "ok" else expect.split("_")[-1]] += 1
+        if len(cl) != ncalls or any(int(t[0]) != c["blocks"][bi] for t, (bi, _, _, _) in zip(cl, outs)):
+            ctx.violation("registered sequence producer: the producer was asked about blocks %s, expected %s (%s)" % ([t[0] for t in cl], [c["blocks"][bi] for bi, _, _, _ in outs[:ncalls]], c["how"]), dict(rep, kind="tie", correspondence="block cutting with a registered producer"), no_input=True)
+            continue
+        if expect != "ok":
+            continue
+        a, w, b, brl = dec[ci]
+        ev += 2
+        if a != w:
+            ctx.violation("frame produced with a registered sequence producer does not decode to the source: %r expected %r (%s; params %s)" % (a, w, c["how"], frames.pstr(c["p"])), dict(rep, library_decoder=a, expected=w))
+            continue
+        if not b.startswith("ok"):
+            ctx.violation("frame produced with a registered sequence producer is not conformant / not decodable independently: %s (%s; params %s)" % (b[:200], c["how"], frames.pstr(c["p"])), dict(rep, conformance=b[:300]))
+            continue
+        if c["_dec"] is None:
+            continue
+        hist_at, groups, bounds = c["_dec"]
+        for (bi, k, s0, o), call in zip(outs, cl):
+            # (1) what the compressor holds when block bi starts  ==  what the decoder holds after the blocks before it
+            ev += 1; stats["history_obs"] += 1
+            if s0 in hist_at and call[2] != hist_at[s0]:
+                mism.append((ci, bi, k, s0, call[2], hist_at[s0]))
+                break
+            if o.startswith("stored"):
+                stats["stored_blocks"] += 1
+                _, obs, lastl, rafter = o.split(" ")
+                g = groups.get(bi)
+                if g and len(g) == 1 and g[0][0] == "2" and g[0][3] not in ("*",):
+                    # (2) the Offset_Values in the emitted block are the offBases the model's transcriber stores
+                    ev += 1; stats["offbase_ties"] += 1
+                    fo = "-" if g[0][3] == "-" else ",".join(t.split(":")[0] for t in g[0][3].split("/"))
+                    if fo != obs:
+                        ctx.violation("registered sequence producer: the block was emitted with Offset_Values %s, the model of the transcriber (ZSTD_c_searchForExternalRepcodes = %d, level %d) stores %s (%s)" % (fo[:200], c["p"].get(1016, 0), c["p"][100], obs[:200], c["how"]),
+                                      dict(rep, kind="tie", correspondence="SeqApi.storeExplicit vs ZSTD_copySequencesToSeqStoreExplicitBlockDelim", block=bi), no_input=True)
+                        break
+                    # (3) nextCBlock->rep as the model computes it == what the compressor holds at the next producer call
+                    if k + 1 < len(cl):
+                        ev += 1; stats["history_ties"] += 1
+                        if cl[k + 1][2] != rafter:
+                            mism.append((ci, bi + 1, k + 1, s0 + c["blocks"][bi], cl[k + 1][2], rafter))
+                            break
+            elif o == "fallback":
+                stats["fallback_blocks"] += 1
+    # a history that differs from the decoder's is not yet a wrong frame: look for one (DESIGN 3.3) - same blocks up to there, then a block
+    # on which the producer fails, baiting the internal parser with a copy at the distance only the compressor believes in
+    for (ci, bi, k, s0, held, truth) in mism[:3]:
+        c = cases[ci]
+        rep = dict(kind="tie", harness="zvh_seqprod", correspondence="repeat-offset history at the start of a block: compressor (prevCBlock->rep) vs decoder / SeqApi.storeExplicit",
+                   op=lines[ci][:400000], block=bi, compressor_holds=held, decoder_holds=truth, how=c["how"])
+        found = exploit_history(ctx, c, bi, k, s0, [int(v) for v in held.split(".")], [int(v) for v in truth.split(".")])
+        if found:
+            ctx.violation("after a block answered by the sequence producer the compressor's repeat-offset history is %s, the decoder's %s; a following block handed to the internal parser (producer failure, fallback enabled) is then emitted with a repeat code the decoder resolves differently: %s (%s; params %s)" % (held, truth, found["desc"], c["how"], frames.pstr(found["p"])), dict(rep, kind="monitor", op=found["op"][:400000], result=found["result"]))
+        else:
+            ctx.violation("at the start of block %d the compressor's repeat-offset history is %s but the decoder's (and the model's) is %s (%s; params %s)" % (bi, held, truth, c["how"], frames.pstr(c["p"])), rep, no_input=True)
+    return ev, stats
+
+
+def exploit_history(ctx, c, bi, k, s0, held, truth):
+    """failing-input search for a history disagreement at the start of block bi (source offset s0): keep everything before, let the producer fail there"""
+    rng = ctx.rng
+    prefix = c["x"][:s0]
+    mbs = c["p"].get(1015, 131072)
+    tries = []
+    for i in range(3):
+        if held[i] == truth[i] or not (1 <= held[i] <= len(prefix)):
+            continue
+        if i == 0:
+            tries.append(([held[0]], {}, "copy at distance %d right after the block start" % held[0]))
+        if i == 1 and 1 <= held[0] <= len(prefix):
+            tries.append(([held[0], held[1]], {}, "copy at distance %d directly after a repeat-offset match" % held[1]))
+        tries.append(([held[i]], {107: 7}, "copy at distance %d, optimal parser" % held[i]))
+    cand = []
+    for dists, extra, desc in tries:
+        for gap in (1, 2, 3):
+            y = bytearray(prefix)
+            bait_block(rng, y, max(mbs if mbs <= 8192 else 4096, 400), dists, gap, [0, 0])
+            p = dict(c["p"]); p[1014] = 1; p.pop(1009, None); p.update(extra); p[201] = 1
+            if extra and p.get(100, 3) > 9 and p.get(1016, 0) == 0:
+                pass
+            cand.append(dict(x=bytes(y), p=p, plan=c["plan"][:k] + ["F"], api="c2", d=c["d"], blocks=c["blocks"][:bi] + [len(y) - s0], how=desc, desc=desc))
+    if not cand:
+        return None
+    exe = seqprod_harness("san"); plain = frames.harness("plain")
+    lines = ["prod %s %s %s %s%s" % (frames.pstr(q["p"]), frames.hx(q["x"]), ";".join(q["plan"]), q["api"], (" " + frames.hx(q["d"])) if q["d"] else "") for q in cand]
+    rc, out, err = frames.run_lines(exe, lines)
+    for q, ln, o in zip(cand, lines, out):
+        head = o.rpartition(" calls=")[0]
+        if head.startswith("err"):
+            continue
+        a = frames.run_lines(plain, ["dec %d %s%s" % (len(q["x"]), head, (" " + frames.hx(q["d"])) if q["d"] else ""), "xxh " + frames.hx(q["x"])])[1]
+        if len(a) == 2 and a[0] != a[1]:
+            return dict(desc=q["desc"], p=q["p"], op=ln, result="decoder: %s, source: %s" % (a[0], a[1]))
+    return None
+
+
+def ll64k_cases(ctx):
+    """a literal run of exactly 65535 / 65536 / 65537 bytes (the 16-bit length field of the seqStore wraps at 65536: long-length flag) followed
+    by repeat-offset matches: what ZSTD_generateSequences reports must be a parse of the source.  Bytes are 7-bit noise: no accidental
+    matches at minMatch 6, yet Huffman-compressible, so the block is emitted compressed when the list is fed back."""
+    rng = ctx.rng
+    out = []
+    for lrun in (65535, 65536, 65537):
+        for variant in (0, 1, 2):
+            A = rng.randint(1500, 2500); off = rng.randint(1200, A - 200); off2 = rng.randint(300, 1100); off3 = rng.randint(100, 290)
+            x = bytearray(rng.getrandbits(7) for _ in range(A))
+            parse = []
+
+            def add(ll, o, ml):
+                st = len(x)
+                x.extend(rng.getrandbits(7) for _ in range(ll))
+                if parse and x[st] == x[st - parse[-1][0]]: x[st] ^= 0x15         # the previous match ends where the parse says
+                if x[-1] == x[-1 - o]: x[-1] ^= 0x2a                              # this match cannot start earlier
+                copy_from(x, o, ml); parse.append((o, ll, ml))
+            copy_from(x, off, 100); parse.append((off, A, 100))
+            if variant >= 1:
+                add(30, off2, 60)                     # history {off2, off, 1}
+            if variant == 0: add(lrun, off, 100)      # repeat code 1 after the long run
+            elif variant == 1: add(lrun, off, 100)    # repeat code 2 after the long run
+            else: add(lrun, off3, 100)                # a new offset after the long run (control: nothing to mis-track)
+            add(10, parse[-1][0], 100)                # repeat code 1
+            add(7, off2 if variant >= 1 else off, 90)
+            add(9, off, 64)
+            tail = rng.randint(200, 600); st = len(x)
+            x.extend(rng.getrandbits(7) for _ in range(tail))
+            if x[st] == x[st - parse[-1][0]]: x[st] ^= 0x15
+            out.append(dict(x=bytes(x), parse=parse, tail=tail, lrun=lrun, variant=variant))
+    return out
+
+
+def run_ll64k(ctx):
+    plain = frames.harness("plain"); exe = frames.harness("san"); sp = seqprod_harness("plain")
+    cases = ll64k_cases(ctx)
+    ev = 0
+    glines, gmeta = [], []
+    for c in cases:
+        assert exec_parse(c["parse"] + [(0, c["tail"], 0)], c["x"]) is None
+        for lvl in (13, 19):
+            glines.append((plain, "genseq %s %s 0" % (frames.pstr({100: lvl, 105: 6}), frames.hx(c["x"])))); gmeta.append((c, "internal parser, level %d" % lvl))
+        glines.append((sp, "prodgen %s %s %s" % (frames.pstr({100: 3, 1016: 1, 160: 0}), frames.hx(c["x"]), entry_str(c["parse"], c["tail"])))); gmeta.append((c, "registered producer, repcode search on"))
+    outs = frames.parallel(lambda ch: [frames.run_lines(ch[0][0], [ch[0][1]])[1]], [[g] for g in glines])
+    cl, cm = [], []
+    for (c, how), (h, ln), o in zip(gmeta, glines, outs):
+        ev += 1
+        g = o[0] if o else "crash"
+        rep = dict(kind="monitor", op=ln[:400000], result=g[:2000], literal_run=c["lrun"], how=how)
+        if g.startswith("err") or g == "crash":
+            ctx.violation("ZSTD_generateSequences failed (%s) on a source with a literal run of %d bytes (%s)" % (g, c["lrun"], how), rep)
+            continue
+        seqs = [tuple(int(v) for v in t.split(":")[:3]) for t in g.split(",")] if g != "-" else []
+        bad = exec_parse(seqs, c["x"])
+        if bad is not None:
+            ctx.violation("ZSTD_generateSequences (%s) reports a list that is NOT a parse of the source: literal run of exactly %d bytes followed by repeat-offset matches, first wrong byte at %d; reported %s" % (
+                how, c["lrun"], bad, ",".join("%d:%d:%d" % s for s in seqs[:8])), rep)
+            continue
+        p = {100: 3, 101: 17, 105: 3, 1008: 1, 1009: 1, 201: 1}
+        cl.append("cseq %s %s %s" % (frames.pstr(p), frames.hx(c["x"]), ",".join("%d:%d:%d" % s for s in seqs))); cm.append((c, how))
+    if cl:
+        fr = frames.parallel(lambda ch: frames.run_lines(exe, ch)[1], frames.split_chunks(cl, 16))
+        dl = ["dec %d %s" % (len(c["x"]), f) for (c, _), f in zip(cm, fr)]; wl = ["xxh " + frames.hx(c["x"]) for c, _ in cm]
+        da = frames.parallel(lambda ch: frames.run_lines(plain, ch)[1], frames.split_chunks(dl, 16)); wa = frames.parallel(lambda ch: frames.run_lines(plain, ch)[1], frames.split_chunks(wl, 16))
+        for (c, how), ln, f, a, w in zip(cm, cl, fr, da, wa):
+            ev += 1
+            if f.startswith("err") or a != w:
+                ctx.violation("the sequences extracted by ZSTD_generateSequences (%s, literal run %d) fed back to ZSTD_compressSequences: %s" % (how, c["lrun"], f if f.startswith("err") else "frame decodes to %r, source is %r" % (a, w)),
+                              dict(kind="monitor", op=ln[:400000], result=f[:200], decoder=a, expected=w))
+    return ev, len(cases)
+
+
+def dict_rawfirst_case(rng):
+    """formatted dictionary whose offset-code table is exact for the first block only; the blocks before the first compressible one are all
+    emitted raw / RLE / stored tiny (noise, runs, a few bytes), and reach far enough for the next block's matches into the dictionary start
+    to need an offset code the table does not describe: the table must not be re-used unchecked ('valid' holds for the FIRST block, however
+    that block is emitted)"""
+    import dictgen
+    top = 1 << 18
+    clen = top - 131072 - rng.randint(600, 3000)
+    content = datagen.randbytes(rng, clen)
+    d, _ = dictgen.build_exact_of(rng, content)
+    alpha = [rng.randrange(256) for _ in range(rng.choice([4, 16, 60]))]
+    x = bytearray(); seqs = []
+    x += datagen.randbytes(rng, 131072); seqs.append((0, 131072, 0))           # raw
+    need = top - clen - 131072 + 400
+    while need > 0:
+        kind = rng.choice(["noise", "run", "tiny"])
+        n = rng.choice([1500, 4000, need + 50]) if kind != "tiny" else rng.randint(1, 6)
+        x += datagen.randbytes(rng, n) if kind != "run" else bytes([rng.randrange(256)]) * n
+        seqs.append((0, n, 0)); need -= n
+    size = rng.choice([3000, 20000, 131072])
+    start = len(x); lit = 0
+    nseq = rng.choice([4, 10, 60, 300])
+    for _ in range(nseq):
+        room = size - (len(x) - start)
+        if room < 400:
+            break
+        ll = min(rng.choice([0, 1, 30, 200]), room - 300)
+        x += bytes(alpha[min(int(rng.expovariate(0.4)), len(alpha) - 1)] for _ in range(ll)); lit += ll
+        if rng.random() < 0.6 or len(x) - start < 40:
+            st = rng.randrange(0, 300); ml = rng.choice([5, 8, 40, 120])
+            off = len(content) + len(x) - st
+            assert off + 3 >= top
+            x += content[st:st + ml]
+        else:
+            # near matches inside the block: other offset codes (a single code for the whole block would be coded as RLE, without any table)
+            off = rng.choice([1, 2, 7, rng.randint(1, len(x) - start)]); ml = rng.choice([5, 6, 20, 150])
+            copy_from(x, off, ml)
+        seqs.append((off, lit, ml)); lit = 0
+    rest = size - (len(x) - start)
+    x += bytes(alpha[min(int(rng.expovariate(0.4)), len(alpha) - 1)] for _ in range(rest))
+    seqs.append((0, lit + rest, 0))
+    p = {100: rng.choice([1, 2, 3]), 101: 21, 1008: 1, 1009: 1, 107: rng.choice([1, 2, 3])}
+    if rng.random() < 0.5: p[201] = 1
+    return bytes(x), p, seqs, d
+
+
 def sstr(seqs):
     return ",".join("%d:%d:%d" % s for s in seqs) or "-"
 
@@ -187,6 +757,10 @@ def correspondence(ctx):
         x, p, sq, d = dict_parse_case(rng)
         dictof[len(lines)] = d
         lines.append("cseq %s %s %s %s" % (frames.pstr(p), frames.hx(x), sstr(sq), frames.hx(d))); meta.append((x, p, "hand-made parse over a formatted dictionary"))
+    for i in range(8 if ctx.quick() else 100):
+        x, p, sq, d = dict_rawfirst_case(rng)
+        dictof[len(lines)] = d
+        lines.append("cseq %s %s %s %s" % (frames.pstr(p), frames.hx(x), sstr(sq), frames.hx(d))); meta.append((x, p, "formatted dictionary, raw / RLE / tiny blocks first, then matches needing an offset code beyond the dictionary's table"))
     outc = frames.parallel(lambda ch: [frames.run_lines(exe, ch, timeout=1800)], frames.split_chunks(lines, 16))
     res = []
     for rc, out, err in outc:
@@ -288,15 +862,23 @@ def correspondence(ctx):
             ctx.violation("model accepts a sequence list the implementation refuses: %s" % c, dict(kind="tie", correspondence="SeqApi.acceptExplicit vs ZSTD_compressSequences", op=ln[:400000], model_op=mln[:400000], impl=c, model=m), no_input=True)
         if len(ctx.violations) >= 8:
             break
-    return dict(evaluations=ev, distinct_nontrivial=len({l for l in lines}) + len({l for l in cl2}),
+    # (3) registered block-level sequence producer: replayed parses, failures, fallback
+    pcases = producer_cases(ctx, ctx.quick())
+    pev, pstats = run_producer_family(ctx, pcases)
+    ev += pev
+    # (4) literal runs at the 16-bit boundary through ZSTD_generateSequences
+    lev, lcases = run_ll64k(ctx)
+    ev += lev
+    return dict(evaluations=ev, distinct_nontrivial=len({l for l in lines}) + len({l for l in cl2}) + len(pcases) + lcases,
                 rule="valid parses: random greedy parser (minMatch 3..7, windows 1 KiB..1 MiB, repcode-heavy sources, blocks cut at random sizes with explicit delimiters incl. matches split across blocks; delimiter-free lists with "
                      "matches crossing 128 KiB) and the library's extracted sequences (with / without merged delimiters), several levels / repcode-search modes / maxBlockSize; corruptions of valid explicit-delimiter lists "
                      "(offset +-, match length, literal length, delimiter removed / inserted / truncated list / extra entry / random entries) with validation on; ASan+UBSan build",
-                samples=[dict(op=lines[0][:50] + " ... " + lines[0].split()[-1][:60], result=res[0][:40])], valid_parses=len(lines), corruptions=len(cl2), verdict_agreement=agree)
+                samples=[dict(op=lines[0][:50] + " ... " + lines[0].split()[-1][:60], result=res[0][:40])], valid_parses=len(lines), corruptions=len(cl2), verdict_agreement=agree,
+                producer_cases=len(pcases), producer_stats=pstats, literal_run_cases=lcases)
 
 
 def replay(ctx, data):
-    exe = frames.harness("san")
+    exe = seqprod_harness("san") if data.get("harness") == "zvh_seqprod" or data.get("op", "").startswith("prod") else frames.harness("san")
     rc, out, err = frames.run_lines(exe, [data["op"]])
     m = frames.model_lines([data["model_op"]]) if data.get("model_op") else None
     return dict(violates=True, impl=[o[:200] for o in out], model=m, rc=rc, stderr=err[-800:])
